@@ -80,6 +80,7 @@ type Opts struct {
 	ResizeDB bool
 	Version  int // header version (default 9)
 	NoCRC    bool // footer all zero ("checksum disabled")
+	Lua      []byte // AUX field "lua" (a script the replay must SCRIPT LOAD)
 }
 
 // BuildRDB writes a valid snapshot. Keys are written in the given order, a
@@ -98,6 +99,11 @@ func BuildRDB(kvs []KV, o Opts) []byte {
 		b.WriteByte(0xFA)
 		b.Write(EncStr([]byte("redis-bits")))
 		b.Write([]byte{0xC0, 64})
+	}
+	if o.Lua != nil {
+		b.WriteByte(0xFA)
+		b.Write(EncStr([]byte("lua")))
+		b.Write(EncStr(o.Lua))
 	}
 	cur := -1
 	for i, kv := range kvs {
